@@ -18,6 +18,7 @@ E3, three exhaustive parts, all against bv.refs.tagref (clause 20.2.1, written w
 """
 import signal
 import time
+import traceback
 
 import bv  # noqa: F401
 from bacpypes.pdu import PDUData
@@ -31,11 +32,13 @@ from bv.refs import tagref as R
 
 PROPERTY = "C02"
 LEVEL = "exploration"
-BUDGET = {"quick": 60.0, "thorough": 840.0}
-RULE = ("a: one case per tag list (distinct by the list); b: one case per octet string; strings of length <= 2 and "
-        "mutants are distinct one by one (mutants that equal their original are skipped), the 2^24 strings of length "
-        "3 are all evaluated but counted as distinct by parse shape ((class, number, length) per tag, or the "
-        "truncation point); c: one case per (tag sequence, query) with query in get_context(0|1|2), Any.decode; "
+BUDGET = {"quick": 55.0, "thorough": 840.0}
+RULE = ("a: one case per tag list (distinct by the list); b: one evaluation per octet string; strings of length <= 2 "
+        "and mutants of encodings of one or two tags are distinct one by one (mutants that equal their original are "
+        "skipped); to bound the key set, the 2^24 strings of length 3 are all evaluated but counted as distinct by "
+        "parse shape ((class, number, length) per tag, or rejection) and the mutants of three-tag encodings per "
+        "(encoding, mutation kind, position); c: four evaluations (get_context(0|1|2), Any.decode) per tag sequence, "
+        "distinct by the sequence; "
         "outcomes are labelled by part x result (list returned / InvalidTag / group / single tag / absent / "
         "unbalanced) x form (canonical, long form, reserved pattern) x nesting depth")
 ASSUMPTIONS = [
@@ -514,7 +517,7 @@ _TIER = "quick"
 
 # watchdog: a 1 s interval timer; the handler raises Watchdog when the evaluation counter of the running shard has
 # not moved for STUCK_S ticks, i.e. ONE decode has been running that long (no per-case system call)
-STUCK_S = 15
+STUCK_S = 10
 _WD = {"acc": None, "last": -1, "stuck": 0, "current": None}
 
 
@@ -543,6 +546,7 @@ def guarded(acc, fn):
         cur = _WD["current"] or {"part": "?"}
         acc.case(("stuck", repr(cur)[:200]))
         acc.outcome("no-termination-within-%ds" % STUCK_S)
+        acc.cap("a block was abandoned after a case that did not terminate (the rest of that block was not evaluated)")
         acc.fail("decode:does-not-terminate", {"watchdog": "one case ran for more than %d s" % STUCK_S,
                                                "case": {k: (v[:32] if isinstance(v, bytes) else v) for k, v in cur.items()}}, cur)
     finally:
@@ -579,8 +583,17 @@ K_BSHORT, K_BMUT, K_C = 1 << 60, 2 << 60, 3 << 60
 
 
 def shard(item, deadline):
+    """A crash of the harness itself is carried home in the Acc and raised by run() after the pool has ended
+    normally (terminating a pool that still has large results in flight was seen to deadlock)."""
     acc = Acc()
-    guarded(acc, lambda: shard_body(acc, item, deadline))
+    try:
+        guarded(acc, lambda: shard_body(acc, item, deadline))
+    except HarnessError as err:
+        acc = Acc()
+        acc.info["harness_error"] = ["%s" % err]
+    except Exception as err:
+        acc = Acc()
+        acc.info["harness_error"] = ["shard %r: %r\n%s" % (item, err, traceback.format_exc())]
     return acc
 
 
@@ -639,7 +652,9 @@ def shard_body(acc, item, deadline):
                     case = {"part": "b-mut", "tags": [list(s) for s in specs], "seed": _SEED, "mutation": [mk, p, v]}
                 _WD["current"] = case
                 res = check_total(mutant)
-                acc.case(K_BMUT | ((((idx * 4 + mk) << 20) | p) << 8) | v)
+                # mutants of the (many) three-tag lists are counted as distinct per (encoding, kind, position) only,
+                # to keep the key set small; all others one by one
+                acc.case(K_BMUT | ((((idx * 4 + mk) << 20) | p) << 8) | (v if len(specs) < 3 else 0))
                 done += 1
                 if res.sig is not None:
                     acc.outcome(res.label)
@@ -660,7 +675,7 @@ def shard_body(acc, item, deadline):
             seq = seq_of(symbols, L, idx)
             case = _WD["current"] = {"part": "c", "seq": seq}
             for q, res in check_nesting(seq):
-                acc.case(K_C | ((((alpha * 16 + L) << 32) | idx) << 2) | (3 if q == "any" else q))
+                acc.case(K_C | (((alpha * 16 + L) << 32) | idx))
                 record(acc, res, case)
             n += 1
         acc.add_info("c: sequences", n)
@@ -715,6 +730,8 @@ def run(tier, seed, deadline):
     if tier == "thorough":
         items += [("b-len3", first) for first in range(256)]
     run_shards(shard, items, deadline, into=acc, ordered=True)
+    if acc.info.get("harness_error"):
+        raise HarnessError("C02 harness crashed in %d shard(s); first: %s" % (len(acc.info["harness_error"]), acc.info["harness_error"][0]))
     acc.info["blocks"] = len(items)
     acc.info["a: singles"] = n_single
     acc.info["b: encodings mutated"] = len(keep) + mut_hi - n_single
